@@ -1,6 +1,6 @@
 PROPS["C06"] = prop(
     "exploration",
-    "rapid-generated ownership histories (first subscription asking for O, grants of O by owner and non-owners, acceptance, unsubscribe/evict/delete attempts on the owner, reloads); invariant over consecutive store snapshots: exactly one effective owner, moves only by grant+acceptance; session 3: store failures around the hand-over (a topic left half-written by a failed request is not judged further), ownership handed over twice",
+    "rapid-generated ownership histories (first subscription asking for O, grants of O by owner and non-owners, acceptance, unsubscribe/evict/delete attempts on the owner, reloads); invariant over consecutive store snapshots: exactly one effective owner, moves only by grant+acceptance; session 3: store failures around the hand-over (a topic left half-written by a failed request is not judged further), ownership handed over twice; after seeded round 6: a second group owned by another user which a root session joins; offers of ownership tracked per (topic, user)",
     "program = 3-5 sessions of 4 users + 3-16 ops from {sub with want incl. O, set given incl. O by anyone on anyone, set own want, leave/unsub, del sub, del topic, set desc/tags, reload, restart}; non-trivial = the owner granted O to another subscriber; distinct = FNV-64 of the program",
     "After every step every live group topic must have exactly one subscription with O in want&given, named by topics.owner; every change of owner is attributed to grant + acceptance. Sampled.",
     "Trusts verifmem; judged on store rows (cache agreement is C08).",
@@ -10,7 +10,7 @@ PROPS["C06"] = prop(
 )
 PROPS["C07"] = prop(
     "exploration",
-    "same generator as C06; transition validator over consecutive store snapshots attributing every changed (topic,user) row to the acting request and its actor's prior effective mode; plus P2P/me/fnd/sys membership and subscriber-limit invariants; session 3: P2P first grant = the peer's default for the executing level (extra.authlevel), fnd/me of another user by literal name, removal by an actor without effective A",
+    "same generator as C06; transition validator over consecutive store snapshots attributing every changed (topic,user) row to the acting request and its actor's prior effective mode; plus P2P/me/fnd/sys membership and subscriber-limit invariants; session 3: P2P first grant = the peer's default for the executing level (extra.authlevel), fnd/me of another user by literal name, removal by an actor without effective A; after seeded round 6: strangers naming a P2P topic by its full name, P2P participants whose account defaults differ, root's first subscription to a foreign group",
     "non-trivial = program with >=1 authorised and >=1 refused permission change, or an unsubscribe followed by a re-subscription; distinct = FNV-64 of the program",
     "Every change of a given/want column must be explained by the statement's rules for the actor who sent the request. Sampled.",
     "Trusts verifmem; root-on-behalf-of actions are attributed to the impersonated user as the server does.",
